@@ -465,6 +465,41 @@ Proof.
   rewrite !app_assoc in Hp. apply app_inj_tail in Hp. destruct Hp as [_ Hp]. discriminate.
 Qed.
 
+(* what the asctime pattern accepts never contains a DQUOTE: no class of the regenerated pattern
+   admits 34 (computed), so a quoted value cannot take the date branch *)
+Fixpoint rx_avoids (c : N) (r : rx) : bool :=
+  match r with
+  | Emp | Eps => true
+  | Cls neg rs => negb (cmem neg rs c)
+  | Cat a b | Alt a b => rx_avoids c a && rx_avoids c b
+  | Star a => rx_avoids c a
+  end.
+
+Lemma rx_avoids_sound : forall c r w, rx_avoids c r = true -> matches r w -> ~ In c w.
+Proof.
+  intros c r w Hav Hm. induction Hm; cbn [rx_avoids] in Hav.
+  - intros [].
+  - intros [E | []]. subst. rewrite H in Hav. discriminate.
+  - apply andb_true_iff in Hav. destruct Hav as [Ha Hb]. intros Hin. apply in_app_or in Hin.
+    destruct Hin; [apply IHHm1 | apply IHHm2]; assumption.
+  - apply andb_true_iff in Hav. apply IHHm. apply Hav.
+  - apply andb_true_iff in Hav. apply IHHm. apply Hav.
+  - intros [].
+  - intros Hin. apply in_app_or in Hin. destruct Hin; [apply IHHm1 | apply IHHm2]; assumption.
+Qed.
+
+Lemma asctime_no_dq : forall v, is_asctime v = true -> ~ In 34 v.
+Proof.
+  intros v H. apply (rx_avoids_sound 34 asctime_rx); [vm_compute; reflexivity |].
+  apply rmatch_correct. exact H.
+Qed.
+
+Lemma tag_not_asctime : forall wt, is_asctime (render_tag wt) = false.
+Proof.
+  intros wt. destruct (is_asctime (render_tag wt)) eqn:E; [| reflexivity].
+  exfalso. apply (asctime_no_dq _ E). unfold render_tag. apply in_or_app. right. left. reflexivity.
+Qed.
+
 Lemma single_tag_list : forall wt, tag_ok (snd wt) -> wf_list [] wt [] [].
 Proof. intros wt Hok. repeat split; constructor; [exact Hok | constructor]. Qed.
 
@@ -477,7 +512,7 @@ Section IfRange.
   Lemma if_range_parse_tag : forall wt, tag_ok (snd wt) ->
     if_range_parse pd (Some (render_tag wt)) = IRTag (MTags (strong_tags [wt])).
   Proof.
-    intros wt Hok. unfold if_range_parse. rewrite tag_not_gmt.
+    intros wt Hok. unfold if_range_parse. rewrite tag_not_gmt, tag_not_asctime. cbn [negb].
     destruct (render_tag wt) eqn:E; [exfalso; exact (render_tag_ne _ E) |]. rewrite <- E.
     rewrite <- (render_single wt). rewrite (matcher_parse_list true _ _ _ _ (single_tag_list wt Hok)).
     reflexivity.
@@ -511,6 +546,30 @@ Section IfRange.
     destruct v as [|x r]; [cbn in Hg; discriminate |]. rewrite Hd. cbn [if_range_contains]. split.
     - intros lm l Hne Hl. destruct lm as [|y lm']; [congruence |]. rewrite Hl. reflexivity.
     - reflexivity.
+  Qed.
+
+  (* the asctime form of HTTP-date: no SP GMT suffix, exactly the asctime-date shape, and parse_date
+     understands it once SP GMT is appended *)
+  Theorem if_range_asctime : forall v d etag_hdr,
+    ends_with_s GMT v = false -> is_asctime v = true -> pd (v ++ GMT) = Some d ->
+    (forall lm l, lm <> [] -> pd lm = Some l ->
+       if_range_contains pd (if_range_parse pd (Some v)) etag_hdr (Some lm) = Some (Z.leb l d)) /\
+    if_range_contains pd (if_range_parse pd (Some v)) etag_hdr None = Some false.
+  Proof.
+    intros v d e Hg Hs Hd. unfold if_range_parse. rewrite Hg, Hs, Hd. cbn [negb].
+    destruct v as [|x r]; [vm_compute in Hs; discriminate |]. cbn [if_range_contains]. split.
+    - intros lm l Hl0 Hl. destruct lm as [|y lm']; [congruence |]. rewrite Hl. reflexivity.
+    - reflexivity.
+  Qed.
+
+  (* ... and ONLY that shape: any other value without the SP GMT suffix is handed to ETagMatcher.parse,
+     whatever parse_date would make of it (an IMF-fixdate or RFC 850 date with the zone cut off, an
+     asctime date with a zone appended, lower-case names, ...) *)
+  Theorem if_range_not_date : forall v,
+    ends_with_s GMT v = false -> is_asctime v = false ->
+    if_range_parse pd (Some v) = IRTag (match v with [] => MAny | _ => matcher_parse true v end).
+  Proof.
+    intros v Hg Hs. unfold if_range_parse. rewrite Hg, Hs. destruct v; reflexivity.
   Qed.
 
   (* no If-Range (or an empty one): every response matches *)
